@@ -118,7 +118,7 @@ type built struct {
 // prepare instruments the current working tree of /repo (cached by source
 // hash) and builds the harness test binary against it.
 func prepare() *built {
-	opts := instrument.Options{RepoDir: repoDir, SimrtDir: filepath.Join(verifDir, "simrt"), StmtPkgs: []string{"bgzf/cache", "+hts/bgzf"}}
+	opts := instrument.Options{RepoDir: repoDir, ModuleDir: "/repo", SimrtDir: filepath.Join(verifDir, "simrt"), StmtPkgs: []string{"bgzf/cache", "+hts/bgzf"}}
 	hash, err := instrument.SourceHash(opts)
 	if err != nil {
 		die(2, "hashing sources: %v", err)
@@ -152,7 +152,7 @@ func prepare() *built {
 
 	// go.sum for the harness: the repository's plus our one dependency.
 	hdir := filepath.Join(verifDir, "harness")
-	sum, _ := os.ReadFile(filepath.Join(repoDir, "go.sum"))
+	sum, _ := os.ReadFile(filepath.Join("/repo", "go.sum"))
 	extra, _ := os.ReadFile(filepath.Join(hdir, "go.sum.extra"))
 	os.WriteFile(filepath.Join(hdir, "go.sum"), append(sum, extra...), 0o644)
 
